@@ -1046,7 +1046,7 @@ func c17ErrSink(r *Run) {
 			continue
 		}
 		done[k] = true
-		sites := callSitesOf(it.fn, reach)
+		sites := dCallSitesIn(r.Prog, it.fn, reach)
 		if len(sites) == 0 {
 			r.Check("C17.R3", "callers of "+shortFunc(it.fn), r.Prog.Pos(it.fn.Pos()), shortFunc(it.fn), "the helper is called from the replica-set reconcile", false, "no static call site reachable from the Reconcile")
 		}
@@ -1680,6 +1680,14 @@ func c17SliceReturned(helper *ssa.Function, cell ssa.Value) (bool, string) {
 			if !c17IsErrType(res.Type()) {
 				continue
 			}
+			// an aggregate of the slice (NewAggregate / errors.Join) carries the same errors
+			for depth := 0; depth < 3; depth++ {
+				c, ok := unwrap(res).(*ssa.Call)
+				if !ok || !c17IsAggregator(&c.Call) || len(c.Call.Args) == 0 {
+					break
+				}
+				res = c.Call.Args[0]
+			}
 			for _, c := range dChains(res, false) {
 				if c.Root == cell && c.Loads == 1 && len(c.Path) == 0 {
 					found = true
@@ -1702,6 +1710,97 @@ func c17SliceReturned(helper *ssa.Function, cell ssa.Value) (bool, string) {
 		}
 	}
 	return true, "the captured slice is returned"
+}
+
+// c17BoolToStatus reads a function of one boolean parameter that returns constant condition
+// statuses: which status for true, which for false (ok=false if it is not such a function).
+func c17BoolToStatus(r *Run, fn *ssa.Function) (map[bool]string, bool) {
+	if fn == nil || len(fn.Blocks) == 0 || len(fn.Params) != 1 || fn.Signature.Results().Len() != 1 {
+		return nil, false
+	}
+	if b, ok := fn.Params[0].Type().Underlying().(*types.Basic); !ok || b.Kind() != types.Bool {
+		return nil, false
+	}
+	paths, _, ok := funcPaths(fn, 100)
+	r.paths += len(paths)
+	if !ok {
+		return nil, false
+	}
+	out := map[bool]string{}
+	for _, p := range paths {
+		s, isC := constString(p.Resolve(returnOf(p.Blocks[len(p.Blocks)-1]).Results[0]))
+		if !isC {
+			return nil, false
+		}
+		var val, known bool
+		for _, f := range p.Facts {
+			if f.V == ssa.Value(fn.Params[0]) {
+				val, known = f.Pol, true
+			}
+		}
+		if !known {
+			return nil, false
+		}
+		if prev, seen := out[val]; seen && prev != s {
+			return nil, false
+		}
+		out[val] = s
+	}
+	return out, len(out) == 2
+}
+
+// c17StatusFalseOnError: the condition status is f(cond) where cond tells whether the collected
+// error is nil / the collected errors are empty, and f maps the "there is an error" side to False.
+func c17StatusFalseOnError(r *Run, p *Path, status ssa.Value, fromSrc func(ssa.Value) bool) bool {
+	c, ok := unwrap(status).(*ssa.Call)
+	if !ok || len(c.Call.Args) != 1 {
+		return false
+	}
+	table, ok := c17BoolToStatus(r, staticCallee(&c.Call))
+	if !ok {
+		return false
+	}
+	cond, neg := p.Resolve(c.Call.Args[0]), false
+	for {
+		if u, isU := cond.(*ssa.UnOp); isU && u.Op == token.NOT {
+			cond, neg = u.X, !neg
+			continue
+		}
+		break
+	}
+	bo, ok := cond.(*ssa.BinOp)
+	if !ok {
+		return false
+	}
+	// condValueWhenError: the value of cond when an error was collected
+	var whenErr bool
+	isZero := func(v ssa.Value) bool { z, ok := constInt(v); return ok && z == 0 }
+	isLenOfSrc := func(v ssa.Value) bool {
+		lc, ok := unwrap(v).(*ssa.Call)
+		return ok && dBuiltin(&lc.Call) == "len" && fromSrc(lc.Call.Args[0])
+	}
+	switch {
+	case (bo.Op == token.EQL || bo.Op == token.NEQ) && ((isNilConst(bo.Y) && fromSrc(bo.X)) || (isNilConst(bo.X) && fromSrc(bo.Y))):
+		whenErr = bo.Op == token.NEQ // err != nil is true when there is an error
+	case (bo.Op == token.EQL || bo.Op == token.NEQ) && ((isZero(bo.Y) && isLenOfSrc(bo.X)) || (isZero(bo.X) && isLenOfSrc(bo.Y))):
+		whenErr = bo.Op == token.NEQ
+	case bo.Op == token.GTR && isLenOfSrc(bo.X) && isZero(bo.Y), bo.Op == token.LSS && isZero(bo.X) && isLenOfSrc(bo.Y):
+		whenErr = true
+	default:
+		return false
+	}
+	if neg {
+		whenErr = !whenErr
+	}
+	return table[whenErr] == "False" && table[!whenErr] == "True"
+}
+
+func c17IsAggregator(c *ssa.CallCommon) bool {
+	switch calleeName(c) {
+	case "k8s.io/apimachinery/pkg/util/errors.NewAggregate", "errors.Join", "k8s.io/apimachinery/pkg/util/errors.Flatten":
+		return true
+	}
+	return false
 }
 
 // c17OnPathReaches resolves v backwards along path p through phis, appends, variadic arrays,
@@ -1966,6 +2065,9 @@ func c17CallerSinks(r *Run, call *ssa.Call, src ssa.Value, helper *ssa.Function,
 					}
 					if hasType && status != nil {
 						if s, isC := constString(p.Resolve(status)); isC && s == "False" {
+							sunk = true
+							c17NoteStatusSink(x, "PodsCleanupDone")
+						} else if c17StatusFalseOnError(r, p, p.Resolve(status), func(v ssa.Value) bool { return derivesFromSrc(p, v) }) {
 							sunk = true
 							c17NoteStatusSink(x, "PodsCleanupDone")
 						}
@@ -2269,7 +2371,7 @@ func (cp *c17Persist) statusPersisted(fn *ssa.Function, site ssa.Instruction, v 
 	root, path := accessPath(v)
 	// (b) the caller's status: follow the parameter to every call site
 	if p, isP := root.(*ssa.Parameter); isP && len(path) == 0 && p.Parent() == fn {
-		sites := callSitesOf(fn, cp.reach)
+		sites := dCallSitesIn(cp.r.Prog, fn, cp.reach)
 		if len(sites) == 0 {
 			return false, "no caller of " + sf
 		}
@@ -2357,6 +2459,22 @@ func (cp *c17Persist) resultPersisted(fn *ssa.Function, res ssa.Value, depth int
 		}
 		return false, "the NewStatus of the strategy result is not what " + sf + " hands to the status update"
 	}
+	// the Result was handed in by the caller: it is the caller's to persist
+	if p, isP := unwrap(res).(*ssa.Parameter); isP && p.Parent() == fn {
+		sites := dCallSitesIn(cp.r.Prog, fn, cp.reach)
+		if len(sites) == 0 {
+			return false, "no caller of " + sf
+		}
+		why := ""
+		for _, cs := range sites {
+			ok2, w := cp.resultPersisted(cs.Parent(), unwrap(cs.Common().Args[paramIndex(p)]), depth+1)
+			if !ok2 {
+				return false, w + " ← " + sf
+			}
+			why = w
+		}
+		return true, why + " ← " + sf
+	}
 	returned := false
 	for _, rt := range dNormalReturns(fn) {
 		if len(rt.Results) == 0 {
@@ -2369,7 +2487,7 @@ func (cp *c17Persist) resultPersisted(fn *ssa.Function, res ssa.Value, depth int
 	if !returned {
 		return false, "the Result whose NewStatus carries the condition is not the one " + sf + " returns"
 	}
-	sites := callSitesOf(fn, cp.reach)
+	sites := dCallSitesIn(cp.r.Prog, fn, cp.reach)
 	if len(sites) == 0 {
 		return false, "no caller of " + sf
 	}
@@ -2459,7 +2577,7 @@ func c17StatusPersisted(r *Run, ers *ssa.Function, reach map[*ssa.Function]bool)
 		need := "the status object on which the " + s.kind + " condition is written is the one that reaches Status().Update (the planner's returned Result.NewStatus, or the status the Reconcile updates)"
 		// a helper writing on its caller's status: one obligation per caller
 		if p, isP := unwrap(obj).(*ssa.Parameter); isP && p.Parent() == fn {
-			sites := callSitesOf(fn, reach)
+			sites := dCallSitesIn(r.Prog, fn, reach)
 			if len(sites) == 0 {
 				r.Check("C17.R3", construct, pos, shortFunc(fn), need, false, "no caller of "+shortFunc(fn))
 			}
